@@ -167,17 +167,20 @@ Definition check_one (before : list event) (e : event) (o : out) : bool :=
       match written_of trace with
       | Some w =>
           crash_check reads w
-          && (if completed faults trace
-              then match last reads None with
-                   | Some cfg => saved_check before cfg
-                   | None => false
-                   end
+          && (if forallb negb faults          (* no operation failed: the save must have run to its end *)
+              then completed faults trace
+                   && match last reads None with
+                      | Some cfg => saved_check before cfg
+                      | None => false
+                      end
               else true)
-      | None => (* the save failed before its write completed: the old version must still be what is read *)
-          match reads with
-          | Some old :: _ => forallb (fun r => match r with Some c => config_eqb c old | None => false end) reads
-          | _ => false
-          end
+      | None => (* the save failed before its write completed (only with a failing operation): the old
+                   version must still be what is read *)
+          negb (forallb negb faults)
+          && match reads with
+             | Some old :: _ => forallb (fun r => match r with Some c => config_eqb c old | None => false end) reads
+             | _ => false
+             end
       end
   | Restart, Restored l => restored_check before l
   | Update _ _ _, Published _ => true
